@@ -25,6 +25,26 @@ def record(chk, rule, f, obs, npaths):
     return npaths
 
 
+def make_adder_check(w, rep):
+    """group-law check (all strata of cases_add) for a function the multiply ladder uses as point addition"""
+    def adder_check(fn, pts, extra, kwargs):
+        nargs = max(list(pts) + list(extra)) + 1
+
+        def call(it, a):
+            argl = [None] * nargs
+            argl[pts[0]], argl[pts[1]] = a[0], a[1]
+            for i, v in extra.items():
+                argl[i] = v
+            return it.call_func(fn, argl, dict(kwargs))
+        try:
+            obs, _n = check_function(w, call, rep, rep, TWO, cases_add, native_fields=False)
+        except AnalysisError as e:
+            raise AnalysisError(f"{fn.qualname} (used as point addition in a scalar-multiplication ladder): {e}")
+        bad = [o for o in obs if not o.ok]
+        return (not bad, "; ".join(f"{o.combo} | {o.case}: {o.detail}" for o in bad[:2])[:500] or f"{len(obs)} cases")
+    return adder_check
+
+
 def law_checks(chk, rule, repo, w, mod, kind):
     rep = Rep(kind)
     aff = Rep("affine")
@@ -80,7 +100,7 @@ def run(chk, repo, tier):
                        "published constants are folded and validated against values re-derived from the curve parameters.")
     chk.rule("C07.R1", "reference modules: every (path, affine case) returns the textbook result; every case is handled; table closed & commutative", 2 * 20)
     chk.rule("C07.R2", "optimized modules equal the same affine table (so reference and optimized agree)", 2 * 20)
-    chk.rule("C07.R3", "multiply(P, n) = n·P for every n ≥ 0 on every path (induction schema), recursion terminates", 4 * 6)
+    chk.rule("C07.R3", "multiply(P, n) = n·P for every n ≥ 0 on every path (induction schema), recursion terminates", 4 * 4)
     chk.rule("C07.R4", "twist is an injective ring-embedding-times-units map carrying E'(F_p²) into E(F_p¹²)", 4 * 4)
     chk.rule("C07.R5", "moduli, orders, coefficients, tower moduli, generators are the standard alt_bn128 / BLS12-381 ones and "
                        "agree between the reference and the optimized module", 30)
@@ -101,7 +121,8 @@ def run(chk, repo, tier):
         n += law_checks(chk, "C07.R2", repo, w, mod, "proj")
     for mod in list(REF.values()) + list(OPT.values()):
         f = repo.func(f"{mod}.multiply")
-        res, np_ = check_multiply_schema(w, f, None, double_q=f"{mod}.double", add_q=f"{mod}.add")
+        res, np_ = check_multiply_schema(w, f, None, double_q=f"{mod}.double", add_q=f"{mod}.add",
+                                         adder_check=make_adder_check(w, Rep("affine" if mod in REF.values() else "proj")))
         for key, ok, det in res:
             chk.ob("C07.R3", f.qualname, key, ok, det, f.where)
     for mod in REF.values():
